@@ -259,7 +259,11 @@ func NewNode(cfg NodeCfg) (n *Node, err error) {
 		fmt.Printf("      KIT node %d: finish=%v state=%d meta(next)=%v bo.height=%d\n", cfg.ID, FinishInterruptedCommit, state.LastBlockHeight, n.BOper.LoadBlockMeta(state.LastBlockHeight+1) != nil, n.BOper.Height())
 	}
 	if FinishInterruptedCommit {
-		if meta := n.BOper.LoadBlockMeta(state.LastBlockHeight + 1); meta != nil {
+		next := state.LastBlockHeight + 1
+		if state.LastBlockHeight == 0 && state.InitialHeight > 0 {
+			next = state.InitialHeight
+		}
+		if meta := n.BOper.LoadBlockMeta(next); meta != nil {
 			n.Exec.SetEventBus(n.Bus)
 			block := n.BOper.LoadBlock(meta.Header.Height)
 			if n.BOper.Height() < block.Height() {
